@@ -34,6 +34,16 @@ CHECKS = {
             "Sabotaged copies must be rejected.",
             TRUST + "standard normal quantiles for STEPD from scipy.stats.norm.ppf.",
             "TLA+ spec + TLC model checking + TLC trace validation of recorded executions", "5/C05"),
+    "C07": ("HDM.tla: exact integer histograms on the common range with floor(sqrt(reference size)) bins, Hellinger / Jensen-Shannon / a user "
+            "divergence, feature average, epsilon, bootstrapped-first-epsilon bookkeeping, running mean / deviation, t- or k-sigma threshold, "
+            "drift rule from the detect_batch-th batch, reference growth / replacement, reset incl. the positional halving and proxy batch of "
+            "detect_batch=1, feature_info. TLC: all histories of set_reference/update/reset over a 4-batch alphabet to depth 6 for detect_batch "
+            "1,2,3 x 2 statistics x 3 divergences (no drift before detect_batch, drift <=> epsilon > beta, ranges, reference rule, lifecycle "
+            "refinement with the +2 counting) and the distance axioms over all pairs of small batches. Conformance: random HDDDM/CDBD histories on "
+            "integer data (1-3 features, varying batch sizes, ndarray/DataFrame, mid-history set_reference and reset, a batch equal to the reference) "
+            "with every public record compared after each call: counters, state, current_distance, epsilon, threshold, reference size, feature_info.",
+            TRUST + "t quantiles from scipy; the bootstrapped first epsilon is read from the public epsilon list as an input.",
+            "TLA+ spec + TLC model checking + TLC trace validation of recorded executions", "5/C07"),
     "C08": ("KdqTree.tla defines build (three-way stop rule, axis cycling, midpoint split), fill, reset, leaf order, the +0.5-corrected "
             "distributions, KL, the flattened plotly view and the Kulldorff statistic on integer data (exact). TLC checks, for EVERY multiset of "
             "up to 4 points on a 3x3 / 4x4 grid and a 5-point line, all count_ubounds and two cell-size bounds, followed by every fill under two ids "
